@@ -69,7 +69,14 @@ code site AND another kind of trigger. Think about what a careful reviewer would
   - a numerical rewrite that is exact for "nice" numbers and wrong only at extreme magnitude, near-ties, denormals or large counts;
   - a helper that is shared by two callers and is changed correctly for one of them;
   - an "optimisation" that is valid for contiguous float64 input and silently wrong for another stride, dtype or container type;
-  - a change in one module that is only wrong together with an unchanged assumption in another module.
+  - a change in one module that is only wrong together with an unchanged assumption in another module;
+  - behaviour that depends on the environment rather than on the arguments: number of CPUs, an environment variable, the logging
+    level, NumPy's floating-point error state (np.seterr / np.errstate), running inside a forked worker, a warnings filter;
+  - a size threshold (K, T, N*W, number of series beyond some number) at which another code path, chunk size or dtype is chosen;
+  - integer pitfalls: counts or indices held in a narrow or unsigned NumPy integer, Python int vs NumPy int semantics (overflow,
+    negative indices, floor division, bool as int), off-by-one only when a length is a multiple of something;
+  - control flow: a broadened or narrowed `except`, a `finally` that masks, an early `return`/`break`/`continue` in a loop,
+    a default argument evaluated once, a generator consumed twice, a dict/set whose iteration order is relied on.
 
 Already used (do not repeat these mechanisms or their near variants):
 
